@@ -62,8 +62,8 @@ CLAIMED["C12"] = dict(
    note="Bounds: one GetConn + 3 operations quick / 4 thorough, 2 ufrags, 3-4 addresses incl. the IPv4-mapped form. Concurrency is OUTSIDE: goroutines take turns at operation boundaries (one legal schedule per path). Known finding listed (write after RemoveConnByUfrag re-binds the address). Leftover table entries of a closed mux are not counted (nothing is dispatched). Trusted: encoder, z3, fake socket, sync.Pool free-list model.",
    ref="DESIGN.md §5 C12")
 CLAIMED["C13"] = dict(
-   text="(a) reference counting: 2..3 handles from the real GetConn over one udpMuxedConn under every sequence of 4-6 Close/WriteTo/ReadFrom operations: the underlying connection is closed exactly when the last handle closes, repeated Close is idempotent, a closed handle's I/O fails with ErrClosedPipe, siblings stay usable; (b) the write-abort protocol (startWriteContext/finishWrite/abortWrite on the lock-free state word) at METHOD-ATOMIC granularity under every sequence of 4-6 calls with SetWriteDeadline succeeding or failing: no-op abort without writers, deadline cleared by the last writer, flags cleared on failed arming, exact in-flight count, no entry while an abort is pending, socket usable afterwards.",
-   note="The fine-grained interleavings of the state word (the part the property's rationale stresses), context-cancelled writes and the TCP mux flavour are OUTSIDE this claim: the encoder is sequential. Trusted: encoder, context package executed as real code, fake socket.",
+   text="(a) reference counting: 2..3 handles from the real GetConn over one udpMuxedConn under every sequence of 4-6 Close/WriteTo/ReadFrom operations: the underlying connection is closed exactly when the last handle closes, repeated Close is idempotent, a closed handle's I/O fails with ErrClosedPipe, siblings stay usable; (b) the write-abort protocol (startWriteContext/finishWrite/abortWrite on the lock-free state word) at method-atomic granularity under every sequence of 4-6 calls with SetWriteDeadline succeeding or failing: no-op abort without writers, deadline cleared by the last writer, flags cleared on failed arming, exact in-flight count, no entry while an abort is pending, socket usable afterwards.",
+   note="(c) verifC13AbortInterleaved explores the fine-grained interleavings the property's rationale stresses: a context-bound write blocked in the socket, a concurrent plain write and the cancellation, with every atomic operation on the state word a scheduling point, all schedules with <= 2 preemptions (264k schedules): everybody returns, state word 0, deadline cleared, later writes succeed. Still outside: more than two writers, context bounds above 2/3, the TCP mux flavour. Trusted: encoder, scheduler model (switches at synchronisation operations), context package as real code, fake socket whose expired deadline fails current and future writes.",
    ref="DESIGN.md §5 C13")
 
 CLAIMED["C18"] = dict(
@@ -81,10 +81,14 @@ CLAIMED["C15"] = dict(
    note="SEQUENTIAL part only: accept loop, readers and close watchers run as cooperative coroutines (one legal schedule); AfterFunc fires only when the harness fires it; segmentations with <= 2 partial reads. Outside: expiry timing, concurrent accepts/removals, Close waiting for goroutines, goroutine census.",
    ref="DESIGN.md §5 C15")
 
+CLAIMED["C10"] = dict(
+   text="First half of the property (the task loop): schedule exploration over the REAL internal/taskloop code (no stub). The harness spawns concurrent submitters (one with a cancellable context), a canceller and a closer next to the loop goroutine; the scheduler switches threads only at synchronisation operations (channel send/receive/select with rendezvous semantics, close, mutex, Once, WaitGroup, atomics) and explores EVERY schedule with at most 2 preemptive context switches (free switches when a thread blocks). On every schedule: tasks never overlap, Run returns nil exactly when its task ran once to completion before the return and an error exactly when it never ran, no task starts after Close returned, the close callback runs once before Close returns, later submissions fail; a state where no thread can run is reported as deadlock.",
+   note="Bounds: quick 1 submitter, thorough 2; context bound 2; switches at synchronisation granularity (sound for data-race-free code). NOT claimed: the second half (every public Agent/Conn method is race-free under concurrency) — that needs a memory-access-level race detector. Schedule-dependent counterexamples are replayed by re-executing the recorded decision vector on the real code's SSA (a native run cannot force a schedule); the harness also runs natively as a sanity check.",
+   ref="DESIGN.md §5 C10")
+
 NOT_APPLICABLE = {
  "C01": "needs two live agents, a symbolic network scheduler and a fairness (liveness) argument; a sequential encoder of single functions cannot express it (its safety half is covered by the C02/C03 lemmas)",
  "C08": "termination / unblocking of blocked goroutines and a goroutine census: no scheduler or channel model in a sequential SSA encoder",
- "C10": "mutual exclusion and exactly-once execution over goroutine interleavings on channels/select/sync.Once: needs a concurrency model checker, outside this technique here",
  "C11": "ordering/non-overlap of the three drainer goroutines: concurrency only",
 }
 
